@@ -4,6 +4,7 @@ from common import cz, copt
 from plotink import ebb_calc, ebb_motion
 from props import ebbgen
 
+import common
 ID = "C01"
 COQ_HEADER = "From Plotink Require Import Base.Prelude Corr.C01.\nOpen Scope Z_scope."
 COQ_RUN = "run01"
@@ -57,3 +58,9 @@ def shrink(c):
                 yield d
     if c["acc"] not in (None, 0) and c["entry"] != 2:
         yield dict(c, acc=0)
+
+
+def static_obligations(work, tier):
+    """the predictor is re-translated from /repo's source on every run (integer/rational mode, mpmath calls read as exact arithmetic)
+    and proved equal to the model the theorems are about"""
+    return common.kernel_obligations(work, ID, "plotink/ebb_calc.py", ['move_dist_lt'], mode="zq")
